@@ -205,6 +205,22 @@ package api
 //@   ensures ren == old(ren) + 1 && redev == store(old(redev), old(ren), self) && readdr == store(old(readdr), old(ren), addr) && reres == store(old(reres), old(ren), result) && renn == old(renn) + ite(result != nil, 1, 0)
 //@   modifies world, held, ren, redev, readdr, reres, renn
 //@ iface api.DeviceRemoteInterface.CheckEntityInformation pure ensures[C05] accepted-is-addressed: result == nil ==> entity.Description != nil && entity.Description.EntityAddress != nil && len(entity.Description.EntityAddress.Entity) > 0
+// per-feature cache cleanup requested when a connection is removed (C10): cwn / cdn calls so far of
+// CleanWriteApprovalCaches / CleanRemoteDeviceCaches, cwski[k] / cdaddr[k] the peer they were asked to forget
+//@ ghost cwn int
+//@ ghost cwski map[int]string
+//@ ghost cdn int
+//@ ghost cdaddr map[int]*model.DeviceAddressType
+//@ iface api.FeatureLocalInterface.CleanWriteApprovalCaches
+//@   ensures cwn == old(cwn) + 1 && cwski == store(old(cwski), old(cwn), ski)
+//@   modifies cwn, cwski, held, timers, world
+//@ iface api.FeatureLocalInterface.CleanRemoteDeviceCaches
+//@   ensures cdn == old(cdn) + 1 && cdaddr == store(old(cdaddr), old(cdn), remoteAddress)
+//@   modifies cdn, cdaddr, held, world
+//@ iface api.SubscriptionManagerInterface.RemoveSubscriptionsForDevice
+//@   modifies @PUBLISH, world, held
+//@ iface api.BindingManagerInterface.RemoveBindingsForDevice
+//@   modifies @PUBLISH, world, held
 //@ iface api.DeviceLocalInterface.CleanRemoteEntityCaches
 //@   ensures casn == old(casn) + 1 && caskind == store(old(caskind), old(casn), 3) && casaddr == store(old(casaddr), old(casn), remoteAddress) && casat == store(old(casat), old(casn), ren)
 //@   modifies world, held, casn, caskind, casaddr, casat
